@@ -7,6 +7,7 @@ import (
 	"os/exec"
 	"path/filepath"
 	"strings"
+	"syscall"
 	"testing"
 	"time"
 )
@@ -432,9 +433,21 @@ func (c10) Eval(t *testing.T, c *Case, dec func(int) *Decider) *Outcome {
 		}
 		if Sub(c.Seed, "strace").Bool(p) {
 			runs, kills := 0, 0
-			for _, class := range straceClasses {
+			// in half of these scenarios the first rename of the process fails with an errno
+			// for which a "fallback" is conceivable (table is a mount point, other device,
+			// no permission on the directory): whatever csvq does then, a kill at any later
+			// system call must still find every table complete
+			renameErr := ""
+			if rs := Sub(c.Seed, "strace-rename"); rs.Bool(0.5) {
+				renameErr = rs.PickS("EBUSY", "EXDEV", "EPERM", "EACCES")
+				o.Stats.fault("real-rename-" + renameErr)
+			}
+			for ci, class := range straceClasses {
+				if renameErr != "" && ci == 0 {
+					continue
+				}
 				for n := 1; n <= 40 && runs < 90; n++ {
-					dir, killed, err := straceCrash(bin, sc, class, n)
+					dir, killed, err := straceCrash(bin, sc, class, n, renameErr)
 					runs++
 					o.RealProc++
 					if err != nil {
@@ -449,7 +462,7 @@ func (c10) Eval(t *testing.T, c *Case, dec func(int) *Decider) *Outcome {
 					for name := range pre {
 						f, exists := dir[name]
 						if !exists {
-							o.viol(prop, "old-or-new", "real-syscall-crash:table-missing", fmt.Sprintf("REAL csvq killed on entry to %s #%d: table %s does not exist (directory: %s)", class, n, name, dir.String()))
+							o.viol(prop, "old-or-new", "real-syscall-crash:table-missing", fmt.Sprintf("REAL csvq killed on entry to %s #%d%s: table %s does not exist (directory: %s)", class, n, afterRename(renameErr), name, dir.String()))
 							continue
 						}
 						ok := false
@@ -463,7 +476,7 @@ func (c10) Eval(t *testing.T, c *Case, dec func(int) *Decider) *Outcome {
 							if len(f.Data) == 0 {
 								kind = "empty"
 							}
-							o.viol(prop, "old-or-new", "real-syscall-crash:table-"+kind, fmt.Sprintf("REAL csvq killed on entry to %s #%d: table %s holds %d bytes that are none of its committed versions", class, n, name, len(f.Data)))
+							o.viol(prop, "old-or-new", "real-syscall-crash:table-"+kind, fmt.Sprintf("REAL csvq killed on entry to %s #%d%s: table %s holds %d bytes that are none of its committed versions", class, n, afterRename(renameErr), name, len(f.Data)))
 						}
 					}
 				}
@@ -558,7 +571,14 @@ func straceOK() bool {
 // straceCrash runs the scenario in the real binary and kills it on entry to the
 // n-th system call of the class. It returns the directory afterwards and
 // whether the process was killed.
-func straceCrash(bin string, sc *Scenario, class string, n int) (DirState, bool, error) {
+func afterRename(errno string) string {
+	if errno == "" {
+		return ""
+	}
+	return " (after its first rename had failed with " + errno + ")"
+}
+
+func straceCrash(bin string, sc *Scenario, class string, n int, renameErr string) (DirState, bool, error) {
 	setupBase()
 	dir, err := os.MkdirTemp(BaseDir, "strace-")
 	if err != nil {
@@ -568,8 +588,12 @@ func straceCrash(bin string, sc *Scenario, class string, n int) (DirState, bool,
 	if err := writeFiles(dir, sc.Files); err != nil {
 		return nil, false, err
 	}
-	args := []string{"-f", "-o", "/dev/null", "-e", "trace=" + class, "-e", fmt.Sprintf("inject=%s:signal=SIGKILL:when=%d", class, n),
-		bin, "--repository", dir, "--quiet", "--cpu", "1", "--format", "CSV", sc.Procs[0].Program}
+	args := []string{"-f", "-o", "/dev/null", "-e", "trace=" + class, "-e", fmt.Sprintf("inject=%s:signal=SIGKILL:when=%d", class, n)}
+	if renameErr != "" {
+		args = []string{"-f", "-o", "/dev/null", "-e", "trace=" + class + "," + straceClasses[0], "-e", fmt.Sprintf("inject=%s:signal=SIGKILL:when=%d", class, n),
+			"-e", fmt.Sprintf("inject=%s:error=%s:when=1", straceClasses[0], renameErr)}
+	}
+	args = append(args, bin, "--repository", dir, "--quiet", "--cpu", "1", "--format", "CSV", sc.Procs[0].Program)
 	cmd := exec.Command("strace", args...)
 	cmd.Dir = filepath.Join(BaseDir, "cwd")
 	cmd.Env = append(os.Environ(), "GOMAXPROCS=1")
@@ -581,6 +605,16 @@ func straceCrash(bin string, sc *Scenario, class string, n int) (DirState, bool,
 	select {
 	case err := <-done:
 		killed := err != nil
+		if renameErr != "" {
+			// the process may also end with an error of its own (the failed rename): only a
+			// death by signal counts as "killed at this point"
+			killed = false
+			if ee, ok := err.(*exec.ExitError); ok {
+				if ws, ok := ee.Sys().(syscall.WaitStatus); ok && ws.Signaled() {
+					killed = true
+				}
+			}
+		}
 		return SnapshotDir(dir), killed, nil
 	case <-time.After(60 * time.Second):
 		_ = cmd.Process.Kill()
